@@ -37,6 +37,8 @@ type oracleInv struct {
 	memNoNonce string
 	// Finalized lists (feeder, height of the finalizing transaction, base block of the round)
 	Finalized [][3]uint64
+	// TwoSigner counts honest two-signer transactions whose both reports were counted
+	TwoSigner int
 	// statistics
 	byConsensus, byCarry, rejected, admittedOnly, counted int
 	classesInHistory                                      map[string]bool
@@ -273,7 +275,7 @@ func (o *oracleInv) price(m *Machine, a *Action, out Outcome) error {
 		admitted, why = false, "size"
 	case sim.PriceSig(a.Sig) != sim.SigValid:
 		admitted, why = false, "signature"
-	case a.Co > 0:
+	case a.Co > 0 && !a.CoOwn:
 		admitted, why = false, "the co-signing validator's signature was made with the first signer's key"
 	case a.PNonce < 0 || int(a.PNonce) > o.maxNonce:
 		admitted, why = false, "nonce beyond the per-round limit"
@@ -287,6 +289,27 @@ func (o *oracleInv) price(m *Machine, a *Action, out Outcome) error {
 		admitted, why = false, "second message repeats the nonce"
 	}
 	twoNonces := admitted && a.Twice && a.N == 1
+	// an honest two-signer transaction: the second validator's message passes the same checks
+	coVal := ""
+	if a.Co > 0 && a.CoOwn {
+		coVal = string(m.Keys[(a.Co-1)%len(m.Keys)].ConsAddr())
+		nB, hasB := 0, false
+		if nm, ok := nmap[coVal]; ok {
+			nB, hasB = nm[fid], false
+			_, hasB = nm[fid]
+		}
+		switch {
+		case !admitted:
+		case a.Twice:
+			admitted, why = false, "not generated together"
+		case a.CoNonce < 0 || int(a.CoNonce) > o.maxNonce:
+			admitted, why = false, "second signer's nonce beyond the per-round limit"
+		case !hasB:
+			admitted, why = false, "no open round for the second signer and feeder"
+		case int(a.CoNonce) != nB+1:
+			admitted, why = false, "second signer's nonce not consecutive"
+		}
+	}
 	if out.Admitted != admitted {
 		return violation("C13.I1.admission", "%s: admitted=%v, model says admitted=%v (%s); stored nonce %d; log: %s", a.String(), out.Admitted, admitted, why, n, truncate(out.Note, 160))
 	}
@@ -294,6 +317,9 @@ func (o *oracleInv) price(m *Machine, a *Action, out Outcome) error {
 		nmap[val][fid] = n + 1
 		if twoNonces {
 			nmap[val][fid] = n + 2
+		}
+		if coVal != "" {
+			nmap[coVal][fid]++
 		}
 	}
 	if a.Mode > 0 {
@@ -356,6 +382,28 @@ func (o *oracleInv) price(m *Machine, a *Action, out Outcome) error {
 			}
 		}
 	}
+	coCounted := false
+	if coVal != "" && admitted && countedWant {
+		// the first message is counted; would the second be, right after it?
+		_, isValB := o.powers[coVal]
+		closes := o.wouldClose(a, val, r)
+		fresh := false
+		for _, d := range a.Dets {
+			if r.seen[coVal] == nil || !r.seen[coVal][d] {
+				fresh = true
+			}
+		}
+		switch {
+		case !isValB:
+			countedWant, whyNot = false, "the transaction's second message is not from a validator, the transaction fails as a whole"
+		case closes:
+			countedWant, whyNot = false, "the first message closes the round, the transaction's second message fails, the transaction fails as a whole"
+		case !fresh:
+			countedWant, whyNot = false, "the transaction's second message carries nothing new, the transaction fails as a whole"
+		default:
+			coCounted = true
+		}
+	}
 	if twoNonces && countedWant {
 		// the second message repeats the first one's source rounds: it carries nothing new, fails,
 		// and the transaction with it; nothing of the first message may stay either
@@ -382,7 +430,7 @@ func (o *oracleInv) price(m *Machine, a *Action, out Outcome) error {
 		o.admittedOnly++
 		o.classesInHistory["admitted-only"] = true
 		for _, e := range d {
-			if !strings.Contains(string(e.Key), sdk.ConsAddress(val).String()) {
+			if !strings.Contains(string(e.Key), sdk.ConsAddress(val).String()) && !(coVal != "" && strings.Contains(string(e.Key), sdk.ConsAddress(coVal).String())) {
 				return violation("C13.I4.uncounted-changed-state", "admitted but uncounted submission changed more than the validator's nonce: %s", e.String())
 			}
 		}
@@ -395,11 +443,17 @@ func (o *oracleInv) price(m *Machine, a *Action, out Outcome) error {
 	}
 	o.counted++
 	o.classesInHistory["counted"] = true
+	if coCounted {
+		o.TwoSigner++
+		o.takeIn(a, val, r) // (does not close the round: checked above)
+		return o.consume(m, a, coVal, fid, r)
+	}
 	return o.consume(m, a, val, fid, r)
 }
 
-// consume: the round model takes in a counted submission.
-func (o *oracleInv) consume(m *Machine, a *Action, val string, fid uint64, r *roundModel) error {
+// takeIn: the round model takes in a counted submission; it reports whether the round closes
+// with it (the closing itself is applied by closeRound).
+func (o *oracleInv) takeIn(a *Action, val string, r *roundModel) bool {
 	power := o.powers[val]
 	if r.seen[val] == nil {
 		r.seen[val] = map[string]bool{}
@@ -436,20 +490,59 @@ func (o *oracleInv) consume(m *Machine, a *Action, val string, fid uint64, r *ro
 	for v := range r.reporters {
 		reportPower += o.powers[v]
 	}
-	if r.confirmed && exceeds(reportPower, o.total) {
-		// the round closes now with the agreed price
-		// (the statement: the round closes with that price; round ids advance by one per interval,
-		// so the stored next round id must be this round's id)
-		t := o.stored[o.feeders[fid].Token]
-		t.prices[r.roundID] = r.confirmedPrice
-		t.next = r.roundID + 1
-		o.prune(t)
-		r.open = false
-		o.Finalized = append(o.Finalized, [3]uint64{fid, uint64(m.C.Height), r.based})
-		o.byConsensus++
-		o.clearNonces(fid)
+	return r.confirmed && exceeds(reportPower, o.total)
+}
+
+// closeRound: the round closes now with the agreed price (the statement: the round closes with
+// that price; round ids advance by one per interval, so the stored next round id must be this
+// round's id).
+func (o *oracleInv) closeRound(m *Machine, fid uint64, r *roundModel) {
+	t := o.stored[o.feeders[fid].Token]
+	t.prices[r.roundID] = r.confirmedPrice
+	t.next = r.roundID + 1
+	o.prune(t)
+	r.open = false
+	o.Finalized = append(o.Finalized, [3]uint64{fid, uint64(m.C.Height), r.based})
+	o.byConsensus++
+	o.clearNonces(fid)
+}
+
+// consume: the round model takes in a counted submission.
+func (o *oracleInv) consume(m *Machine, a *Action, val string, fid uint64, r *roundModel) error {
+	if o.takeIn(a, val, r) {
+		o.closeRound(m, fid, r)
 	}
 	return o.compareStored(m)
+}
+
+// wouldClose: would the round close if this validator's report were taken in now? (evaluated on
+// a copy of the round model)
+func (o *oracleInv) wouldClose(a *Action, val string, r *roundModel) bool {
+	if r == nil {
+		return false
+	}
+	return o.takeIn(a, val, r.clone())
+}
+
+func (r *roundModel) clone() *roundModel {
+	c := &roundModel{based: r.based, roundID: r.roundID, open: r.open, confirmed: r.confirmed, confirmedPrice: r.confirmedPrice,
+		seen: map[string]map[string]bool{}, dets: map[string]map[string]*big.Int{}, reporters: map[string]bool{}, order: append([]string{}, r.order...)}
+	for v, ds := range r.seen {
+		c.seen[v] = map[string]bool{}
+		for d, b := range ds {
+			c.seen[v][d] = b
+		}
+	}
+	for d, ps := range r.dets {
+		c.dets[d] = map[string]*big.Int{}
+		for p, w := range ps {
+			c.dets[d][p] = new(big.Int).Set(w)
+		}
+	}
+	for v, b := range r.reporters {
+		c.reporters[v] = b
+	}
+	return c
 }
 
 func (o *oracleInv) NonTrivialRounds() bool {
